@@ -206,13 +206,21 @@ for name in itn: vset_iter_t(community)
     }
 //@ end
 
-// ---- C12 / C20: modularity - the NotAPartition guard and panic-freedom of its lookups; the value (float sums, powf) is not claimed ----
+// ---- C12 / C20: modularity - the NotAPartition guard, panic-freedom of its lookups, and its value as an expression over uninterpreted f64 operators and sums ----
 // R-ext (A5): float pipelines over hash maps / sets / slices as local declarations with ASSUMED contracts; closures that hold a lookup stay in place
+// the float sums and the square are uninterpreted functions of their operands (A1: deterministic, nothing assumed about values)
+pub uninterp spec fn map_fsum<K>(m: Map<K, f64>) -> f64;
+pub uninterp spec fn set_fsum<K>(s: Set<K>, m: Map<K, f64>) -> f64;
+pub uninterp spec fn seq_fsum(v: Seq<f64>) -> f64;
+pub uninterp spec fn fpow2(x: f64) -> f64;
+pub uninterp spec fn wsum_edges<T: PartialOrd + Send, A>(v: Seq<Edge<T, A>>) -> f64;
 #[verifier::external_body]
 pub fn vsum_values<K>(m: &HashMap<K, f64>) -> (r: f64)
+    ensures r == map_fsum(m@),
 { m.values().sum() }
 #[verifier::external_body]
 pub fn vpowf2(x: f64) -> (r: f64)
+    ensures r == fpow2(x),
 { x.powf(2.0) }
 #[verifier::external_body]
 pub fn vclone_f64_map<K: Clone + Eq + Hash>(m: &HashMap<K, f64>) -> (r: HashMap<K, f64>)
@@ -227,15 +235,63 @@ pub fn vset_cloned_vec<T: Clone + Eq + Hash>(s: &HashSet<T>) -> (r: Vec<T>)
 #[verifier::external_body]
 pub fn vsum_refs_over_set<'a, T: Eq + Hash, F: FnMut(&'a T) -> &'a f64>(s: &'a HashSet<T>, f: F) -> (r: f64)
     requires forall|x: &'a T| s@.contains(*x) ==> call_requires(f, (x,)),
+    // if f looks its argument up in a map mm, the result is the sum of mm over the set
+    ensures forall|mm: Map<T, f64>| (forall|x: &'a T, o: &'a f64| s@.contains(*x) && #[trigger] call_ensures(f, (x,), o) ==> mm.contains_key(*x) && *o == mm[*x]) ==> r == #[trigger] set_fsum(s@, mm),
 { s.iter().map(f).sum() }
 // `slice.iter().map(f).sum::<f64>()`
 #[verifier::external_body]
 pub fn vsum_over_slice<X, F: FnMut(&X) -> f64>(s: &[X], f: F) -> (r: f64)
     requires forall|i: int| 0 <= i < s@.len() ==> call_requires(f, (&#[trigger] s@[i],)),
+    ensures exists|outs: Seq<f64>| outs.len() == s@.len() && (forall|i: int| 0 <= i < s@.len() ==> call_ensures(f, (&s@[i],), #[trigger] outs[i])) && r == seq_fsum(outs),
 { s.iter().map(f).sum() }
 #[verifier::external_body]
 pub fn vsum_edge_weights<T: PartialOrd + Send, A>(v: &Vec<&Arc<Edge<T, A>>>) -> (r: f64)
+    ensures r == wsum_edges(Seq::new(v@.len(), |i: int| **v@[i])),
 { v.iter().map(|e| e.weight).sum() }
+
+// ---- what modularity computes (as an expression over uninterpreted f64 operators and sums) ----
+pub open spec fn sub_out<T: Eq + PartialOrd + Send + Sync, A: Clone>(g: &Graph<T, A>, sel: Set<T>, kn: Seq<int>, ke: Seq<int>, sg: &Graph<T, A>) -> bool {
+    subgraph_outcome(*g, sel, kn, ke, Ok(*sg))
+}
+pub open spec fn res_of(resolution: Option<f64>) -> f64 { if resolution is Some { resolution.unwrap() } else { 1.0f64 } }
+// the contribution of one community: L_c / m - resolution * (out-degree sum) * (in-degree sum) * norm, where L_c is the number (or weight sum) of the
+// edges of the subgraph induced by the community and the in-degree sum is the out-degree sum on an undirected graph
+pub open spec fn contribution_of<T: Eq + PartialOrd + Send + Sync, A: Clone>(g: &Graph<T, A>, sel: Set<T>, weighted: bool, res: f64, m: f64, norm: f64,
+        outd: Map<T, f64>, ind: Map<T, f64>, c: f64) -> bool {
+    exists|sg: Graph<T, A>, kn: Seq<int>, ke: Seq<int>| #[trigger] sub_out(g, sel, kn, ke, &sg) && ({
+        let l = if weighted { wsum_edges(sg.all_edges_seq()) } else { usize_to_f64(sg.all_edges_seq().len() as usize) };
+        let os = set_fsum(sel, outd);
+        let is = if g.specs.directed { set_fsum(sel, ind) } else { os };
+        c == fsub(fdiv(l, m), fmul(fmul(fmul(res, os), is), norm))
+    })
+}
+// the degree maps modularity reads: one entry per node carrying the (weighted) out- / in-degree when directed, the (weighted) degree for both when undirected
+pub open spec fn mod_degrees<T: Eq + PartialOrd + Send + Sync, A: Clone>(g: &Graph<T, A>, weighted: bool, outd: Map<T, f64>, ind: Map<T, f64>) -> bool {
+    &&& forall|k: T| #[trigger] outd.contains_key(k) <==> g.knows(k)
+    &&& forall|k: T| #[trigger] ind.contains_key(k) <==> g.knows(k)
+    &&& !g.specs.directed ==> ind == outd
+    &&& forall|k: T| #[trigger] outd.contains_key(k) ==> (
+            if g.specs.directed { if weighted { is_weighted_out_degree_of(*g, k, outd[k]) } else { exists|d: usize| #[trigger] is_out_degree_of(*g, k, d) && outd[k] == usize_to_f64(d) } }
+            else { if weighted { is_weighted_degree_of(*g, k, outd[k]) } else { exists|d: usize| #[trigger] is_degree_of(*g, k, d) && outd[k] == usize_to_f64(d) } })
+    &&& g.specs.directed ==> forall|k: T| #[trigger] ind.contains_key(k) ==> (
+            if weighted { is_weighted_in_degree_of(*g, k, ind[k]) } else { exists|d: usize| #[trigger] is_in_degree_of(*g, k, d) && ind[k] == usize_to_f64(d) })
+}
+// m and the normalisation: directed m = sum of out-degrees, norm = (1 / m)^2; undirected m = degree sum / 2, norm = (1 / degree sum)^2
+pub open spec fn mod_scale<T: Eq + PartialOrd + Send + Sync, A: Clone>(g: &Graph<T, A>, outd: Map<T, f64>, m: f64, norm: f64) -> bool {
+    if g.specs.directed { m == map_fsum(outd) && norm == fpow2(fdiv(1.0f64, m)) }
+    else { m == fdiv(map_fsum(outd), 2.0f64) && norm == fpow2(fdiv(1.0f64, map_fsum(outd))) }
+}
+pub open spec fn mod_parts<T: Eq + PartialOrd + Send + Sync, A: Clone>(g: &Graph<T, A>, comms: Seq<HashSet<T>>, weighted: bool, resolution: Option<f64>,
+        outd: Map<T, f64>, ind: Map<T, f64>, m: f64, norm: f64, cs: Seq<f64>, r: f64) -> bool {
+    &&& mod_degrees(g, weighted, outd, ind)
+    &&& mod_scale(g, outd, m, norm)
+    &&& cs.len() == comms.len()
+    &&& forall|i: int| 0 <= i < comms.len() ==> contribution_of(g, comms[i]@, weighted, res_of(resolution), m, norm, outd, ind, #[trigger] cs[i])
+    &&& r == seq_fsum(cs)
+}
+pub open spec fn modularity_value<T: Eq + PartialOrd + Send + Sync, A: Clone>(g: &Graph<T, A>, comms: Seq<HashSet<T>>, weighted: bool, resolution: Option<f64>, r: f64) -> bool {
+    exists|outd: Map<T, f64>, ind: Map<T, f64>, m: f64, norm: f64, cs: Seq<f64>| #[trigger] mod_parts(g, comms, weighted, resolution, outd, ind, m, norm, cs, r)
+}
 
 // rebuilding the subgraph induced by one community does not fail (precondition of Graph::get_subgraph, which unwraps: C15)
 pub open spec fn community_rebuilds<T: Eq + PartialOrd + Send + Sync, A: Clone>(g: &Graph<T, A>, sel: Set<T>) -> bool {
@@ -252,6 +308,7 @@ pub open spec fn community_rebuilds<T: Eq + PartialOrd + Send + Sync, A: Clone>(
 //@ spec
     ensures
         r@.dom() =~= hashmap@.dom(),
+        forall|k: T| #[trigger] r@.contains_key(k) ==> r@[k] == usize_to_f64(hashmap@[k]),
 //@ end
 
 //@ extract fn src/algorithms/community/partitions.rs modularity props=C12,C20
@@ -279,12 +336,18 @@ let deg_sum: f64 = vsum_values(&deg);
 let community_contribution = |community: &HashSet<T>| {
         let comm_vec: Vec<T> = community.iter().cloned().collect();
 //@ with
-let community_contribution = |community: &HashSet<T>| -> (o: f64)
+proof {
+        assert(mod_degrees(graph, weighted, out_degree@, in_degree@));
+        assert(mod_scale(graph, out_degree@, m, norm));
+    }
+    let community_contribution = |community: &HashSet<T>| -> (o: f64)
         requires
             graph.wf_nodes(), graph.wf_estore(), graph.wf_rows(),
             forall|x: T| community@.contains(x) ==> graph.knows(x),
             forall|k: T| graph.knows(k) ==> out_degree@.contains_key(k) && in_degree@.contains_key(k),
             community_rebuilds(graph, community@),
+        ensures
+            contribution_of(graph, community@, weighted, res_of(resolution), m, norm, out_degree@, in_degree@, o),
     {
         let comm_vec: Vec<T> = vset_cloned_vec(community);
         proof { assert(comm_vec@.to_set() =~= community@); }
@@ -297,15 +360,33 @@ true => vsum_edge_weights(&subgraph_edges),
 //@ rewrite
 let out_degree_sum: f64 = community.iter().map(|n| out_degree.get(n).unwrap()).sum();
 //@ with
-let out_degree_sum: f64 = vsum_refs_over_set(community, |n: &T| -> (o: &f64) requires out_degree@.contains_key(*n), key_model_ok::<T>() { out_degree.get(n).unwrap() });
+let out_degree_sum: f64 = vsum_refs_over_set(community, |n: &T| -> (o: &f64) requires out_degree@.contains_key(*n), key_model_ok::<T>() ensures out_degree@.contains_key(*n) && *o == out_degree@[*n] { out_degree.get(n).unwrap() });
+        proof { assert(out_degree_sum == set_fsum(community@, out_degree@)); }
 //@ rewrite
 true => community.iter().map(|n| in_degree.get(n).unwrap()).sum(),
 //@ with
-true => vsum_refs_over_set(community, |n: &T| -> (o: &f64) requires in_degree@.contains_key(*n), key_model_ok::<T>() { in_degree.get(n).unwrap() }),
+true => vsum_refs_over_set(community, |n: &T| -> (o: &f64) requires in_degree@.contains_key(*n), key_model_ok::<T>() ensures in_degree@.contains_key(*n) && *o == in_degree@[*n] { in_degree.get(n).unwrap() }),
+//@ before subgraph_edges_weight / m
+        proof {
+            let gr: &Graph<T, A> = graph;
+            let (kn, ke) = choose|kn: Seq<int>, ke: Seq<int>| #[trigger] subgraph_outcome(*gr, comm_vec@.to_set(), kn, ke, Ok(subgraph));
+            assert(subgraph_outcome(*gr, comm_vec@.to_set(), kn, ke, Ok(subgraph)));
+            assert(sub_out(graph, community@, kn, ke, &subgraph));
+            assert(Seq::new(subgraph_edges@.len(), |i: int| **subgraph_edges@[i]) =~= subgraph.all_edges_seq());
+            if graph.specs.directed { assert(in_degree_sum == set_fsum(community@, in_degree@)); }
+        }
 //@ rewrite
 Ok(communities.iter().map(community_contribution).sum())
 //@ with
-Ok(vsum_over_slice(communities, community_contribution))
+let total = vsum_over_slice(communities, community_contribution);
+    proof {
+        let cs = choose|outs: Seq<f64>| outs.len() == communities@.len() && (forall|i: int| 0 <= i < communities@.len() ==> call_ensures(community_contribution, (&communities@[i],), #[trigger] outs[i])) && total == seq_fsum(outs);
+        assert forall|i: int| 0 <= i < communities@.len() implies contribution_of(graph, communities@[i]@, weighted, res_of(resolution), m, norm, out_degree@, in_degree@, #[trigger] cs[i]) by {
+            assert(call_ensures(community_contribution, (&communities@[i],), cs[i]));
+        }
+        assert(mod_parts(graph, communities@, weighted, resolution, out_degree@, in_degree@, m, norm, cs, total));
+    }
+    Ok(total)
 //@ spec
     requires
         graph.wf_nodes(), graph.wf_estore(), graph.wf_rows(),
@@ -316,6 +397,9 @@ Ok(vsum_over_slice(communities, community_contribution))
         // [C12.modularity.rejects_exactly_the_non_partitions]
         !true_partition(*graph, communities@) ==> is_err_kind(r, ErrorKind::NotAPartition),
         true_partition(*graph, communities@) ==> r.is_ok(),
+        // [C12.modularity.value_is_the_sum_of_the_community_contributions]
+        // as an expression over uninterpreted f64 operators and sums: sum over the communities of L_c / m - resolution * out-sum * in-sum * norm
+        r.is_ok() ==> modularity_value(graph, communities@, weighted, resolution, r.unwrap()),
 //@ end
 } // verus!
 fn main() {}
